@@ -124,43 +124,66 @@ fn init_writer_on(w: &env::Shared) -> Hypercore {
     c
 }
 
-/// the source writer for replica configurations: 4 blocks
-fn source_writer() -> Hypercore {
+/// Replica configurations start from a replica that is already half synced (length 2 of a
+/// 4-block writer, block 0 held), so that reads touch storage (and yield) and the pre-built
+/// proofs are conflicting upgrades from the same base.
+fn source_writer(n: u64) -> Hypercore {
     let w = env::new_world(env::empty_image());
     let mut c = match create_on(&w, key_pair(KEY_SEED), CacheCfg::Off) {
         Out::Ok(c) => c,
         _ => panic!("harness: create failed"),
     };
-    for i in 0..4u64 {
+    for i in 0..n {
         let _ = guard(c.append(&Blk::P(1 + (i % 3) as u32, 8).bytes(i)));
     }
     c
 }
 
-/// Pre-built honest proofs that conflict with each other.
+fn base_proof() -> Proof {
+    let mut w = source_writer(2);
+    match guard(w.create_proof(Some(RequestBlock { index: 0, nodes: 0 }), None, None, Some(RequestUpgrade { start: 0, length: 2 }))) {
+        Out::Ok(Some(p)) => p,
+        o => panic!("harness: cannot build base proof: {}", o.map(|_| ()).brief()),
+    }
+}
+
+fn init_replica_on(w: &env::Shared) -> Hypercore {
+    let mut c = match create_on(w, public_only(&key_pair(KEY_SEED)), CacheCfg::Off) {
+        Out::Ok(c) => c,
+        _ => panic!("harness: replica create failed"),
+    };
+    match guard(c.verify_and_apply_proof(&base_proof())) {
+        Out::Ok(true) => {}
+        o => panic!("harness: base proof not accepted: {}", o.brief()),
+    }
+    c
+}
+
+/// Pre-built honest proofs (from the 4-block writer, for the half-synced replica) that conflict.
 fn replica_proofs() -> Vec<Proof> {
-    let mut w = source_writer();
-    let up = Some(RequestUpgrade { start: 0, length: 4 });
+    let mut w = source_writer(4);
+    let hw = env::new_world(env::empty_image());
+    let mut helper = init_replica_on(&hw);
+    let up = Some(RequestUpgrade { start: 2, length: 2 });
     let mut v = vec![];
-    let p = |w: &mut Hypercore, b: Option<RequestBlock>, u: Option<RequestUpgrade>| -> Proof {
-        match guard(w.create_proof(b, None, None, u)) {
+    let mut p = |w: &mut Hypercore, helper: &mut Hypercore, b: Option<u64>, u: Option<RequestUpgrade>| -> Proof {
+        let rb = b.map(|i| RequestBlock { index: i, nodes: match guard(helper.missing_nodes(i)) { Out::Ok(n) => n, _ => 0 } });
+        match guard(w.create_proof(rb, None, None, u)) {
             Out::Ok(Some(p)) => p,
             o => panic!("harness: cannot build replica proof: {}", o.map(|_| ()).brief()),
         }
     };
-    v.push(p(&mut w, None, up.clone())); // P0 upgrade only
-    v.push(p(&mut w, Some(RequestBlock { index: 0, nodes: 0 }), up.clone())); // P1 block 0 + upgrade
-    v.push(p(&mut w, Some(RequestBlock { index: 1, nodes: 0 }), up.clone())); // P2 block 1 + upgrade
-    v.push(p(&mut w, Some(RequestBlock { index: 1, nodes: 2 }), None)); // P3 block 1 for an upgraded replica
-    v.push(p(&mut w, Some(RequestBlock { index: 2, nodes: 2 }), None)); // P4 neighbouring block
-    v
-}
-
-fn init_replica_on(w: &env::Shared) -> Hypercore {
-    match create_on(w, public_only(&key_pair(KEY_SEED)), CacheCfg::Off) {
-        Out::Ok(c) => c,
-        _ => panic!("harness: replica create failed"),
+    v.push(p(&mut w, &mut helper, None, up.clone())); // P0 upgrade 2..4 only
+    v.push(p(&mut w, &mut helper, Some(2), up.clone())); // P1 block 2 + upgrade
+    v.push(p(&mut w, &mut helper, Some(3), up.clone())); // P2 block 3 + upgrade
+    v.push(p(&mut w, &mut helper, Some(1), None)); // P3 block 1, no upgrade (valid before and after)
+    // P4: block 2 for a replica that has already upgraded
+    match guard(helper.verify_and_apply_proof(&v[0])) {
+        Out::Ok(true) => {}
+        o => panic!("harness: helper upgrade failed: {}", o.brief()),
     }
+    v.push(p(&mut w, &mut helper, Some(2), None));
+    v
 }
 
 fn fp(s: &str) -> String {
@@ -661,7 +684,7 @@ pub fn run(tier: &str) -> i32 {
     let proofs = Arc::new(replica_proofs());
     let wmenu = vec![Call::Append(0), Call::Batch(0), Call::Get(0), Call::Get(INIT_BLOCKS), Call::Has(INIT_BLOCKS), Call::Info, Call::MissingNodes(0), Call::Prove(0)];
     let small = vec![Call::Append(0), Call::Info, Call::Get(INIT_BLOCKS)];
-    let rmenu = vec![Call::Apply(0), Call::Apply(1), Call::Apply(2), Call::Apply(3), Call::Apply(4), Call::Get(1), Call::Info, Call::MissingNodes(1)];
+    let rmenu = vec![Call::Apply(0), Call::Apply(1), Call::Apply(2), Call::Apply(3), Call::Apply(4), Call::Get(0), Call::Info, Call::MissingNodes(1)];
     let mut configs: Vec<(String, Config, Option<u32>)> = vec![];
     let mut add = |name: &str, replica: bool, bound: Option<u32>, v: Vec<Vec<Vec<Call>>>| {
         for tasks in v {
@@ -679,7 +702,7 @@ pub fn run(tier: &str) -> i32 {
     if !quick {
         add("writer 2 tasks x 3 calls, append/batch/get/info", false, None, product(&[Call::Append(0), Call::Batch(0), Call::Get(INIT_BLOCKS), Call::Info], 2, 3));
         add("writer 4 tasks x 1 call", false, Some(6), product(&[Call::Append(0), Call::Batch(0), Call::Get(INIT_BLOCKS), Call::Info, Call::Prove(0)], 4, 1));
-        add("replica 2 tasks x 3 calls", true, None, product(&[Call::Apply(1), Call::Apply(2), Call::Apply(3), Call::Get(1), Call::Info], 2, 3));
+        add("replica 2 tasks x 3 calls", true, None, product(&[Call::Apply(1), Call::Apply(2), Call::Apply(3), Call::Get(0), Call::Info], 2, 3));
         add("replica 4 tasks x 1 call", true, Some(6), product(&rmenu[..6], 4, 1));
     }
     let cap: u64 = if quick { 250_000 } else { 3_000_000 };
